@@ -9,13 +9,23 @@
 //! horizon; plus a wall-clock backstop of 10x the horizon) per case. When the runner dies on a
 //! signal the supervisor knows from the cursor exactly which single operation of which single
 //! case was executing: no search is needed to narrow the range down. The attribution is then
-//! *confirmed* by running exactly that one operation alone in a fresh runner: if it dies in the
-//! same way the crash is attributed to the case (line `X`); if it does not, the crash depends on
-//! something else than the case and is a machinery error (line `M`, exit status 2), never a
-//! verdict. The supervisor then forks a new runner that resumes at the next operation.
+//! *confirmed* by running exactly that one operation alone in a fresh runner: if it dies again
+//! (timeout again, or abort again — the signal of an abort that comes from undefined behaviour
+//! varies) the crash is attributed to the case (line `X`). If it does not, the runner's whole
+//! history (from where that runner started, up to the operation) is re-executed in a fresh
+//! runner: if that dies at the same operation, the death is deterministic and is attributed to
+//! the operation in flight, with the history recorded (line `H`) for replay; if it dies
+//! elsewhere it is still reported for the operation in flight, marked inexact. Only a death that
+//! recurs in neither way is a machinery error (line `M`, exit status 2), never a verdict. The
+//! supervisor then starts a new runner that resumes at the next operation.
+//!
+//! Runners are not forked by the supervisor itself but by a *zygote* forked from it before any
+//! case ran, which never touches its heap: every runner starts from an identical memory image,
+//! so re-executions are exact repetitions even for code that reads uninitialised heap memory.
 //!
 //! Line protocol on the worker's stdout (one record per line):
 //!   `X <case> <op> <step> <class> <json stderr excerpt>`  crash / timeout attributed to one operation
+//!   `H <case> <op> <from-case> <from-op> <exact 1|0>`     the following `X` recurs only after this history (0: at a varying point)
 //!   `V <case> <op> <step> <json panic message>`           panic caught inside the runner
 //!   `L <case>`                                            ladder stopped at this case (first timeout)
 //!   `T <lo> <hex>`                                        result table (ENTRY bytes per case)
@@ -118,6 +128,8 @@ pub struct Spec {
 	pub stop_on_timeout: bool,
 	pub only_op: Option<usize>,
 	pub known_budget: u32,
+	/// first operation of the first case (0 except when a recorded history is re-executed)
+	pub start_op: usize,
 }
 
 /// Shared mapping: header (4 x u64: case, op, step, unused) + table.
@@ -256,9 +268,18 @@ struct Death {
 	class: String,
 	stderr: String,
 }
+impl Death {
+	/// Two deaths are of the same kind when both are timeouts or both are aborts: the signal (and
+	/// the message) of a crash that comes from undefined behaviour varies with the state of the
+	/// process (SIGSEGV in one run, "free(): invalid pointer" + SIGABRT in another).
+	fn same_kind(&self, other: &Death) -> bool {
+		(self.class == "timeout") == (other.class == "timeout")
+	}
+}
 
-/// Fork a runner. Returns None if it ran to completion, or how it died.
-fn fork_runner(job: &dyn Job, spec: &Spec, shared: &Shared, from_case: u64, from_op: usize) -> Option<Death> {
+/// Fork a runner from the current process, run it to its end, collect its stderr (into a caller
+/// provided buffer, no heap use in this process) and its wait status.
+fn run_one(job: &dyn Job, spec: &Spec, shared: &Shared, from_case: u64, from_op: usize, err: &mut [u8]) -> (i32, usize) {
 	let mut fds = [0i32; 2];
 	if unsafe { libc::pipe(fds.as_mut_ptr()) } != 0 {
 		machinery("pipe() failed");
@@ -273,35 +294,25 @@ fn fork_runner(job: &dyn Job, spec: &Spec, shared: &Shared, from_case: u64, from
 			libc::close(fds[0]);
 			libc::close(fds[1]);
 		}
-		match spec.stack {
-			Stack::Main => runner_body(job, spec, shared, from_case, from_op),
-			Stack::T2m => {
-				// scoped thread with an explicit 2 MiB stack; the forked child is single-threaded
-				std::thread::scope(|s| {
-					let h = std::thread::Builder::new().stack_size(2 << 20).spawn_scoped(s, || runner_body(job, spec, shared, from_case, from_op));
-					match h {
-						Ok(h) => {
-							if h.join().is_err() {
-								machinery("runner thread panicked outside catch_unwind");
-							}
-						}
-						Err(_) => machinery("cannot spawn the 2 MiB runner thread"),
-					}
-				});
-			}
-		}
+		// the runner is the copy of the thread that forked it: the zygote's main thread (8 MiB stack) or
+		// the zygote's 2 MiB thread (see `start_zygote`)
+		runner_body(job, spec, shared, from_case, from_op);
 		unsafe { libc::_exit(0) };
 	}
 	unsafe { libc::close(fds[1]) };
-	let mut err = Vec::new();
-	let mut buf = [0u8; 4096];
+	let mut len = 0usize;
+	let mut sink = [0u8; 512];
 	loop {
-		let n = unsafe { libc::read(fds[0], buf.as_mut_ptr() as *mut libc::c_void, buf.len()) };
+		let n = if len < err.len() {
+			unsafe { libc::read(fds[0], err[len..].as_mut_ptr() as *mut libc::c_void, err.len() - len) }
+		} else {
+			unsafe { libc::read(fds[0], sink.as_mut_ptr() as *mut libc::c_void, sink.len()) }
+		};
 		if n <= 0 {
 			break;
 		}
-		if err.len() < 16384 {
-			err.extend_from_slice(&buf[..n as usize]);
+		if len < err.len() {
+			len += n as usize;
 		}
 	}
 	unsafe { libc::close(fds[0]) };
@@ -311,9 +322,153 @@ fn fork_runner(job: &dyn Job, spec: &Spec, shared: &Shared, from_case: u64, from
 		if r == pid {
 			break;
 		}
-		if r < 0 && std::io::Error::last_os_error().kind() != std::io::ErrorKind::Interrupted {
+		if r < 0 && unsafe { *libc::__errno_location() } != libc::EINTR {
 			machinery("waitpid() failed");
 		}
+	}
+	(status, len)
+}
+
+/// Request to the zygote: run the cases `from_case` (starting at `from_op`) .. `hi`.
+#[repr(C)]
+#[derive(Clone, Copy)]
+struct Req {
+	from_case: u64,
+	from_op: u64,
+	hi: u64,
+	/// -1: all operations
+	only_op: i64,
+}
+
+const ERR_CAP: usize = 8192;
+
+fn read_full(fd: i32, buf: &mut [u8]) -> bool {
+	let mut off = 0;
+	while off < buf.len() {
+		let n = unsafe { libc::read(fd, buf[off..].as_mut_ptr() as *mut libc::c_void, buf.len() - off) };
+		if n == 0 {
+			return false;
+		}
+		if n < 0 {
+			if unsafe { *libc::__errno_location() } == libc::EINTR {
+				continue;
+			}
+			return false;
+		}
+		off += n as usize;
+	}
+	true
+}
+fn write_full(fd: i32, buf: &[u8]) -> bool {
+	let mut off = 0;
+	while off < buf.len() {
+		let n = unsafe { libc::write(fd, buf[off..].as_ptr() as *const libc::c_void, buf.len() - off) };
+		if n <= 0 {
+			if n < 0 && unsafe { *libc::__errno_location() } == libc::EINTR {
+				continue;
+			}
+			return false;
+		}
+		off += n as usize;
+	}
+	true
+}
+
+/// The zygote: a child of the supervisor, forked before any case has run, that does nothing but
+/// fork runners on request. It never touches the heap (requests, answers and the runners' stderr
+/// go through fixed buffers on its stack), so **every runner starts from the same memory image**,
+/// byte for byte and address for address. That is what makes the re-execution of an operation
+/// alone, or of a runner's whole history, an exact repetition — also for code whose behaviour
+/// depends on what earlier cases left on the heap (reads of uninitialised memory), and
+/// independent of what the supervisor itself allocated in the meantime.
+struct Zygote {
+	req: i32,
+	resp: i32,
+}
+
+fn zygote_loop(job: &dyn Job, spec: &Spec, shared: &Shared, req_fd: i32, resp_fd: i32) -> ! {
+	let mut err = [0u8; ERR_CAP];
+	loop {
+		let mut r = Req { from_case: 0, from_op: 0, hi: 0, only_op: -1 };
+		let raw = unsafe { std::slice::from_raw_parts_mut(&mut r as *mut Req as *mut u8, std::mem::size_of::<Req>()) };
+		if !read_full(req_fd, raw) {
+			unsafe { libc::_exit(0) };
+		}
+		let sp = Spec { lo: spec.lo, hi: r.hi, stack: spec.stack, horizon_cpu_ms: spec.horizon_cpu_ms, stop_on_timeout: false, only_op: if r.only_op < 0 { None } else { Some(r.only_op as usize) }, known_budget: u32::MAX, start_op: 0 };
+		let (status, len) = run_one(job, &sp, shared, r.from_case, r.from_op as usize, &mut err);
+		let mut head = [0u8; 8];
+		head[..4].copy_from_slice(&status.to_le_bytes());
+		head[4..].copy_from_slice(&(len as u32).to_le_bytes());
+		if !write_full(resp_fd, &head) || !write_full(resp_fd, &err[..len]) {
+			unsafe { libc::_exit(2) };
+		}
+	}
+}
+
+fn start_zygote(job: &dyn Job, spec: &Spec, shared: &Shared) -> Zygote {
+	let (mut a, mut b) = ([0i32; 2], [0i32; 2]);
+	if unsafe { libc::pipe(a.as_mut_ptr()) } != 0 || unsafe { libc::pipe(b.as_mut_ptr()) } != 0 {
+		machinery("pipe() failed");
+	}
+	let pid = unsafe { libc::fork() };
+	if pid < 0 {
+		machinery("fork() failed");
+	}
+	if pid == 0 {
+		unsafe {
+			libc::close(a[1]);
+			libc::close(b[0]);
+		}
+		// std seeds its HashMap keys per thread from the OS on first use: do that once in the thread
+		// that forks the runners, so that every runner inherits the same keys (same hash tables, same
+		// heap traffic)
+		let seed = || std::hint::black_box(std::collections::hash_map::RandomState::new());
+		match spec.stack {
+			Stack::Main => {
+				let _ = seed();
+				zygote_loop(job, spec, shared, a[0], b[1])
+			}
+			Stack::T2m => {
+				// The 2 MiB variant: the zygote loop itself runs on a thread with a 2 MiB stack; a forked
+				// child consists of the forking thread only, so each runner *is* a 2 MiB thread whose
+				// thread-local state was set up once, here
+				std::thread::scope(|s| {
+					let h = std::thread::Builder::new().stack_size(2 << 20).spawn_scoped(s, || {
+						let _ = seed();
+						zygote_loop(job, spec, shared, a[0], b[1])
+					});
+					match h {
+						Ok(h) => {
+							let _ = h.join();
+							machinery("the 2 MiB zygote thread ended");
+						}
+						Err(_) => machinery("cannot spawn the 2 MiB zygote thread"),
+					}
+				});
+				unsafe { libc::_exit(2) }
+			}
+		}
+	}
+	unsafe {
+		libc::close(a[0]);
+		libc::close(b[1]);
+	}
+	Zygote { req: a[1], resp: b[0] }
+}
+
+/// Have the zygote fork a runner. Returns None if it ran to completion, or how it died.
+fn fork_runner(zy: &Zygote, spec: &Spec, from_case: u64, from_op: usize) -> Option<Death> {
+	let r = Req { from_case, from_op: from_op as u64, hi: spec.hi, only_op: spec.only_op.map_or(-1, |o| o as i64) };
+	let raw = unsafe { std::slice::from_raw_parts(&r as *const Req as *const u8, std::mem::size_of::<Req>()) };
+	let mut head = [0u8; 8];
+	if !write_full(zy.req, raw) || !read_full(zy.resp, &mut head) {
+		machinery("the zygote process is gone");
+	}
+	let status = i32::from_le_bytes(head[..4].try_into().unwrap());
+	let len = u32::from_le_bytes(head[4..].try_into().unwrap()) as usize;
+	let mut err = vec![0u8; len];
+	if !read_full(zy.resp, &mut err) {
+		machinery("the zygote process is gone");
 	}
 	let stderr = String::from_utf8_lossy(&err).into_owned();
 	if libc::WIFEXITED(status) {
@@ -331,8 +486,10 @@ fn fork_runner(job: &dyn Job, spec: &Spec, shared: &Shared, from_case: u64, from
 	} else if stderr.contains("memory allocation of") {
 		"abort:alloc-failure".to_owned()
 	} else {
-		format!("abort:signal-{sig}")
+		// one class for every other death by signal; the signal is part of the observation text
+		"abort".to_owned()
 	};
+	let stderr = if class == "abort" { format!("killed by signal {sig} | {stderr}") } else { stderr };
 	Some(Death { class, stderr })
 }
 
@@ -349,11 +506,12 @@ pub fn supervise(job: &dyn Job, spec: &Spec) -> i32 {
 	let shared = Shared::new(n.max(1));
 	let nops = job.nops();
 	assert!(nops <= MAX_OPS);
+	let zy = start_zygote(job, spec, &shared);
 	let mut from_case = spec.lo;
-	let mut from_op = 0usize;
+	let mut from_op = spec.start_op;
 	let mut confirmed_known: std::collections::BTreeMap<usize, u32> = Default::default();
 	while from_case < spec.hi {
-		let Some(death) = fork_runner(job, spec, &shared, from_case, from_op) else { break };
+		let Some(death) = fork_runner(&zy, spec, from_case, from_op) else { break };
 		let (c, o, st) = (shared.get_u64(0), shared.get_u64(1) as usize, shared.get_u64(2) as u8);
 		if c < from_case || c >= spec.hi || o >= nops {
 			machinery(&format!("runner died ({}) with an implausible cursor case={c} op={o}: {}", death.class, crate::report::truncate(&death.stderr, 300)));
@@ -377,17 +535,41 @@ pub fn supervise(job: &dyn Job, spec: &Spec) -> i32 {
 		};
 		if need_confirm && !(c == from_case && o == from_op) {
 			// (a crash on the very first operation of a fresh runner already happened in isolation)
-			let one = Spec { lo: spec.lo, hi: spec.hi.min(c + 1), stack: spec.stack, horizon_cpu_ms: spec.horizon_cpu_ms, stop_on_timeout: false, only_op: Some(o), known_budget: u32::MAX };
-			let again = fork_runner(job, &one, &shared, c, o);
-			let same = matches!(&again, Some(d) if d.class == death.class) && shared.get_u64(0) == c && shared.get_u64(1) as usize == o;
+			let one = Spec { lo: spec.lo, hi: spec.hi.min(c + 1), stack: spec.stack, horizon_cpu_ms: spec.horizon_cpu_ms, stop_on_timeout: false, only_op: Some(o), known_budget: u32::MAX, start_op: 0 };
+			let again = fork_runner(&zy, &one, c, o);
+			let same = matches!(&again, Some(d) if d.same_kind(&death)) && shared.get_u64(0) == c && shared.get_u64(1) as usize == o;
 			if !same {
-				machinery(&format!(
-					"runner died ({}) at case {c} op {o} step {st} while executing the range {}..{}, but that single operation alone gave {:?}: the crash cannot be attributed to one case",
-					death.class,
-					spec.lo,
-					spec.hi,
-					again.map(|d| d.class)
-				));
+				// The operation alone does not die: does the death recur when the runner's whole
+				// history (everything it executed before, in the same order, in a fresh process) is
+				// re-executed? If it dies again at the same cursor the death is deterministic and it
+				// happened while this operation was executing: it is attributed to it, with the
+				// history recorded (`H`) so that a replay re-executes the same history. Such deaths
+				// depend on process state that earlier cases leave behind (heap contents) — the mark
+				// of undefined behaviour.
+				let hist = Spec { lo: spec.lo, hi: c + 1, stack: spec.stack, horizon_cpu_ms: spec.horizon_cpu_ms, stop_on_timeout: false, only_op: spec.only_op, known_budget: u32::MAX, start_op: 0 };
+				let replayed = fork_runner(&zy, &hist, from_case, from_op);
+				let died_again = matches!(&replayed, Some(d) if d.same_kind(&death));
+				let (c2, o2) = (shared.get_u64(0), shared.get_u64(1) as usize);
+				let recurs = died_again && c2 == c && o2 == o;
+				if died_again && !recurs {
+					// The history dies again, but at another operation (case {c2}): the death is real and
+					// recurring but its exact point moves with the contents of the heap that the
+					// runner inherits from this supervisor. It is reported for the operation that was
+					// in flight when it was first observed, marked as not exactly reproducible.
+					emit(&format!("H {c} {o} {from_case} {from_op} 0"));
+				} else if !recurs {
+					machinery(&format!(
+						"runner died ({}) at case {c} op {o} step {st} while executing the range {}..{}, but that single operation alone gave {:?} and re-executing the runner's history from case {from_case} op {from_op} gave {:?}: the crash cannot be attributed to one case",
+						death.class,
+						spec.lo,
+						spec.hi,
+						again.map(|d| d.class),
+						replayed.map(|d| d.class)
+					));
+				}
+				if recurs {
+					emit(&format!("H {c} {o} {from_case} {from_op} 1"));
+				}
 			}
 		}
 		let slot = (c - spec.lo) as usize;
@@ -430,6 +612,9 @@ pub struct Crash {
 	pub step: u8,
 	pub class: String,
 	pub stderr: String,
+	/// Some((case, op, exact)): the death recurs only when the runner's history from there is re-executed
+	/// first; `exact = false`: it then recurs at a point that varies from run to run
+	pub history: Option<(u64, usize, bool)>,
 }
 #[derive(Clone, Debug)]
 pub struct Panic {
@@ -457,6 +642,7 @@ pub fn spawn_worker(args: &[String]) -> Result<WorkerResult, String> {
 	let stderr = String::from_utf8_lossy(&out.stderr);
 	let mut r = WorkerResult::default();
 	let mut ended = false;
+	let mut pending_history: Option<(u64, usize, u64, usize, bool)> = None;
 	for line in stdout.lines() {
 		let (tag, rest) = line.split_at(line.len().min(1));
 		let rest = rest.trim_start();
@@ -465,8 +651,21 @@ pub fn spawn_worker(args: &[String]) -> Result<WorkerResult, String> {
 				let mut it = rest.splitn(5, ' ');
 				let (a, b, c, d, e) = (it.next(), it.next(), it.next(), it.next(), it.next());
 				let (Some(a), Some(b), Some(c), Some(d), Some(e)) = (a, b, c, d, e) else { return Err(format!("bad X record: {line}")) };
-				r.crashes.push(Crash { idx: a.parse().map_err(|_| "bad X idx")?, op: b.parse().map_err(|_| "bad X op")?, step: c.parse().map_err(|_| "bad X step")?, class: d.to_owned(), stderr: serde_json::from_str(e).unwrap_or_default() });
+				r.crashes.push(Crash { idx: a.parse().map_err(|_| "bad X idx")?, op: b.parse().map_err(|_| "bad X op")?, step: c.parse().map_err(|_| "bad X step")?, class: d.to_owned(), stderr: serde_json::from_str(e).unwrap_or_default(), history: None });
+				if let Some((hc, ho, fc, fo, exact)) = pending_history.take() {
+					let last = r.crashes.last_mut().unwrap();
+					if last.idx == hc && last.op == ho {
+						last.history = Some((fc, fo, exact));
+					}
+				}
 				r.runners_died += 1;
+			}
+			"H" => {
+				let v: Vec<u64> = rest.split(' ').filter_map(|x| x.parse().ok()).collect();
+				if v.len() != 5 {
+					return Err(format!("bad H record: {line}"));
+				}
+				pending_history = Some((v[0], v[1] as usize, v[2], v[3] as usize, v[4] == 1));
 			}
 			"V" => {
 				let mut it = rest.splitn(4, ' ');
